@@ -13,6 +13,7 @@ sys.path.insert(0, os.path.dirname(os.path.abspath(__file__)))
 import vlib  # noqa
 
 VERIF = vlib.VERIF
+OUT = os.environ.get('VERIF_OUT', VERIF)
 PROPS = {json.loads(l)['id']: json.loads(l) for l in open(os.path.join(VERIF, 'properties.jsonl'))}
 
 GLOBAL_ASSUMPTIONS = [
@@ -71,9 +72,9 @@ def match_known_kani(known, prop, unit, harness, fc):
 
 
 def write_replay(prop, unit, engine, obligation, body, test=None, harness=None):
-    os.makedirs(os.path.join(VERIF, 'replays'), exist_ok=True)
+    os.makedirs(os.path.join(OUT, 'replays'), exist_ok=True)
     h = hashlib.sha1((unit + obligation + (test or body)).encode()).hexdigest()[:10]
-    path = os.path.join(VERIF, 'replays', f'{prop}-{unit}-{h}.rs')
+    path = os.path.join(OUT, 'replays', f'{prop}-{unit}-{h}.rs')
     with open(path, 'w', encoding='utf-8') as f:
         f.write(f'// REPLAY property={prop} unit={unit} engine={engine} harness={harness or "-"}\n')
         f.write(f'// failed obligation: {obligation}\n')
@@ -114,6 +115,10 @@ def run_property(prop, tier, seed, only_units=None):
         for a in u['unverified']:
             unverified.append(f"{u['unit']}: {a}")
 
+    kani_ok_fns = set()
+    for hr in kres['harnesses']:
+        if hr['status'] == 'ok':
+            kani_ok_fns |= set(hr['fns'])
     for r in vres:
         solver['z3_via_verus_s'] += r.get('smt_ms', 0) / 1000.0
         obligations += r['verified'] + r.get('n_errors', 0)
@@ -137,6 +142,17 @@ def run_property(prop, tier, seed, only_units=None):
         if not real:
             continue
         contract = [e for e in real if e['kind'] in vlib.CONTRACT_KINDS and not e['fn'].startswith('witness_')]
+        aux = [e for e in real if e not in contract]
+        # A failed hint `assert` inside a sliced real function masks the contract obligations behind it (Verus assumes it afterwards).
+        # It is an obligation that was discharged on the validated tree and now fails: reported as a violation without input,
+        # unless a Kani harness exercising the same function passed in this run (then: proof maintenance, undecided).
+        for e in aux:
+            if e['sliced'] and e['kind'] == 'assert':
+                short = '::'.join(re.sub(r'<[^>]*>', '', re.sub(r'^impl.*?\bfor\s+|^impl(<[^>]*>)?\s*', '', seg)).strip() for seg in e['fn'].split('::')[-2:])
+                short = re.sub(r'\s+', '', short)
+                if short in kani_ok_fns or e['fn'].split('::')[-1] in kani_ok_fns:
+                    continue
+                contract.append(e)
         if not contract:
             undecided.append(f"{r['unit']}: only auxiliary obligations failed ({', '.join(sorted(set(e['kind'] + '@' + e['fn'] for e in real)))}); proof needs maintenance")
             continue
@@ -223,8 +239,8 @@ def run_property(prop, tier, seed, only_units=None):
         'wall_s': round(wall, 2),
         'violations': len(violations),
     }
-    os.makedirs(os.path.join(VERIF, 'evidence'), exist_ok=True)
-    json.dump(ev, open(os.path.join(VERIF, 'evidence', prop + '.json'), 'w'), indent=1)
+    os.makedirs(os.path.join(OUT, 'evidence'), exist_ok=True)
+    json.dump(ev, open(os.path.join(OUT, 'evidence', prop + '.json'), 'w'), indent=1)
     if violations:
         return 1
     if undecided:
